@@ -23,9 +23,21 @@ def single_module(top, entry):
     return re.search(rb"^\s*import\s", src, re.M) is None
 
 
+def opcode_table():
+    """(name, id) pairs of the interpreter's instruction table, read from the source at check time."""
+    import os
+    with open(os.path.join(core.REPO, "bytecode", "src", "instruction_constants.rs")) as f:
+        return [(name.lower(), int(num)) for name, num in re.findall(r"^\s+([A-Z][A-Z0-9_]+)\s+(\d+)\s*$", f.read(), re.M)]
+
+
 def gen_cases(tier, seed):
     quick = tier == "quick"
     n = 0
+    # the name -> opcode table: hand-written text bytecode naming every instruction once, in a function that never runs
+    for r in range(4 if quick else 16):
+        rng = Rng(derive(seed, PROP, "optable", r))
+        yield {"prop": PROP, "id": "o%d" % r, "batch": "opcode_table", "kind": "optable", "arg": rng.choice(["a", "b c", 'q"t', "é", "t\tb", ""]),
+               "same_seed": True, "env": pipeline.gen_env(rng, "benign" if r else "fault_free", 4, same_seed=True)}
     entries = [e for e in pipeline.corpus_entries() if e not in pipeline.SLOW_OR_UNSTABLE and single_module(*e)]
     reps = 3 if quick else 12
     for (top, entry) in entries:
@@ -80,7 +92,62 @@ def count_records(text_form):
     return f, e
 
 
+def hrb_quote(s):
+    return '"%s"' % s.replace("\\", "\\\\").replace('"', '\\"').replace("\n", "\\n").replace("\t", "\\t").replace("\r", "\\r")
+
+
+def run_optable(case):
+    table = [(n_, i) for n_, i in opcode_table() if n_ not in ("nop", "char", "endif")]
+    arg = case["arg"]
+    L = ["function unused"]
+    for name, _ in table:
+        L.append("\t%s %s %s" % (name, hrb_quote(arg), hrb_quote("z")))
+    L += ["end", "function __module__", '\tmake_str "table ok"', '\tprintn "*"', "\tvoid", "\tret", "end"]
+    env = case["env"]
+    world = core.fresh_world({"t.transpiled.mmm": "\n".join(L) + "\n"})
+    t = core.run_cmd(world, ["transpile", "t.transpiled.mmm"], plan=env["plans"][1])
+    procs = [t]
+    st = None
+    msg = None
+    if t["rc"] != 0:
+        msg = ("transpile-failed", "transpile rejected a file naming every instruction of the table: %s" % core.text(t["err"])[-300:])
+    else:
+        e = core.run_cmd(world, ["execute", "t.mmm"], plan=env["plans"][2], gc=env["gc"][2], dump=True)
+        procs.append(e)
+        if e["rc"] != 0 or core.text(e["out"]) != "table ok\n":
+            msg = ("exit-differs", "executing the transpiled table file failed: rc=%d %s" % (e["rc"], core.text(e["err"])[-300:]))
+        else:
+            want = [' function "unused"'] + ["  %d %s" % (i, json_list([arg, "z"])) for _, i in table]
+            dump = e.get("dump", "").split("\n")
+            try:
+                k = dump.index(' function "unused"')
+                got = dump[k:k + len(want)]
+            except ValueError:
+                got = []
+            if got != want:
+                diff = next(((a, b) for a, b in zip(got, want) if a != b), (len(got), len(want)))
+                msg = ("instructions-differ", "name -> opcode / argument mapping of the transpiler differs from the instruction table: got %r, want %r" % diff)
+    allrules = [r_ for pl in env["plans"] for r_ in pl["rules"]]
+    st = core.stats_of(procs, [allrules] * len(procs))
+    st["shape"] = core.shape_hash("optable", arg, [[(r_["call"], r_["act"].split(":")[0]) for r_ in pl["rules"]] for pl in env["plans"]])
+    st["nontrivial"] = True
+    st["sample"] = {"kind": "optable", "argument": arg, "instructions": len(table)}
+    st["probes"] = {"opcode_table_file": 1}
+    if msg:
+        return {"ok": False, "class": msg[0], "msg": msg[1], "stats": st, "detail": {"bytecode": "\n".join(L)[:3000]}}
+    return {"ok": True, "stats": st}
+
+
+def json_list(items):
+    """Rust's {:?} of a Box<[String]> for the argument vocabulary used here."""
+    def esc(x):
+        return '"%s"' % x.replace("\\", "\\\\").replace('"', '\\"').replace("\t", "\\t").replace("\n", "\\n")
+    return "[" + ", ".join(esc(x) for x in items) + "]"
+
+
 def run_case(case):
+    if case["kind"] == "optable":
+        return run_optable(case)
     files, entry = pipeline.case_files(case)
     env = case["env"]
     dump = bool(case.get("same_seed"))
